@@ -47,6 +47,50 @@ const PreludeContract = `access(all) contract C {
             pre { self.id() < 1000: "id too big" }
             post { result == before(self.id()) + 1: "bump is wrong" }
         }
+        // conditions inherited by the implementations in R; resource-kinded parameters
+        access(all) fun takeR(_ r: @R): Int {
+            pre { self.id() > -100000: "takeR pre" }
+            post { result == self.id(): "takeR post" }
+        }
+        access(all) fun takeOpt(_ r: @R?): Int {
+            pre { self.id() > -100000: "takeOpt pre" }
+            post { result == self.id(): "takeOpt post" }
+        }
+        access(all) fun takeArr(_ rs: @[R]): Int {
+            pre { self.id() > -100000: "takeArr pre" }
+            post { result >= 0: "takeArr post" }
+        }
+        access(all) fun takeDict(_ d: @{String: R}): Int {
+            pre { self.id() > -100000: "takeDict pre" }
+            post { result >= 0: "takeDict post" }
+        }
+        // default functions with conditions and resource-kinded parameters
+        access(all) fun eatR(_ r: @R): Int {
+            pre { self.id() > -100000: "eatR pre" }
+            post { result == 1: "eatR post" }
+            destroy r
+            return 1
+        }
+        access(all) fun eatOpt(_ r: @R?): Int {
+            pre { self.id() > -100000: "eatOpt pre" }
+            post { result == 1: "eatOpt post" }
+            destroy r
+            return 1
+        }
+        access(all) fun eatArr(_ rs: @[R]): Int {
+            pre { self.id() > -100000: "eatArr pre" }
+            post { result >= 0: "eatArr post" }
+            let n = rs.length
+            destroy rs
+            return n
+        }
+        access(all) fun eatDict(_ d: @{String: R}): Int {
+            pre { self.id() > -100000: "eatDict pre" }
+            post { result >= 0: "eatDict post" }
+            let n = d.length
+            destroy d
+            return n
+        }
     }
     access(all) resource Child {
         access(all) event ResourceDestroyed(uuid: UInt64 = self.uuid)
@@ -72,6 +116,10 @@ const PreludeContract = `access(all) contract C {
         }
         access(all) view fun id(): Int { return self.n }
         access(E) fun bump(): Int { self.n = self.n + 1; return self.n }
+        access(all) fun takeR(_ r: @R): Int { destroy r; return self.n }
+        access(all) fun takeOpt(_ r: @R?): Int { destroy r; return self.n }
+        access(all) fun takeArr(_ rs: @[R]): Int { let n = rs.length; destroy rs; return n }
+        access(all) fun takeDict(_ d: @{String: R}): Int { let n = d.length; destroy d; return n }
         access(all) fun swapChild(_ c: @Child): @Child { let old <- self.child <- c; return <- old }
         access(all) fun addKid(_ c: @Child) { self.kids.append(<- c) }
         access(all) fun popKid(): @Child? {
